@@ -107,6 +107,9 @@ type Net struct {
 	OnSent func(to peer.ID, m gsmsg.GraphSyncMessage)
 	// SendGate: SendMsg to that peer blocks until the gate is opened
 	SendGate map[peer.ID]*Gate
+	// Dead: every send to (and every new sender for) that peer fails: the
+	// connection timed out for good
+	Dead map[peer.ID]bool
 	SendCalls   int
 	Connects    int
 	OpenSenders int
@@ -135,6 +138,9 @@ func (n *Net) ConnectTo(ctx context.Context, p peer.ID) error {
 }
 
 func (n *Net) NewMessageSender(ctx context.Context, p peer.ID, o gsnet.MessageSenderOpts) (gsnet.MessageSender, error) {
+	if n.Dead[p] {
+		return nil, errors.New("stub: peer is gone")
+	}
 	if n.fault("newsender-fails") {
 		return nil, errors.New("stub: no sender")
 	}
@@ -151,6 +157,9 @@ func (s *Sender) SendMsg(ctx context.Context, m gsmsg.GraphSyncMessage) error {
 	s.n.SendCalls++
 	if g := s.n.SendGate[s.p]; g != nil {
 		g.Wait()
+	}
+	if s.n.Dead[s.p] {
+		return errors.New("stub: send timed out, peer is gone")
 	}
 	if s.n.fault("send-fails") {
 		return errors.New("stub: send failed")
